@@ -114,12 +114,88 @@ PIPELINES.append(Pipeline('U3_NoCompressor_close', units=[U_ncc], prelude=NOCOMP
     harness='void harness(void) { struct NoCompressor* c; NoCompressor_close(c); __CPROVER_assert(verif_exc != 0, "canary:normal"); __CPROVER_assert(verif_exc == 0, "canary:throw"); }',
     canaries=['canary:normal', 'canary:throw'], replay=('c08_write', lambda cex, o: ['search'])))
 
+
+# ---- GzipCompressor / Bzip2Compressor: every failure reported by the library or the OS becomes an exception ---------------------------------
+BZ = 'include/osmium/io/bzip2_compression.hpp'
+ZSTUBS = NOCOMP.replace('struct NoCompressor', 'struct NoCompressor_unused') + '''
+#define Z_OK 0
+#define BZ_OK 0
+#define BZ_STREAM_END 4
+typedef int* gzFile; typedef int BZFILE; typedef int VFILE;
+struct GzipCompressor { size_t m_file_size; int m_fd; gzFile m_gzfile; bool ghost_do_fsync; };
+struct file_wrapper { VFILE m_file_handle; bool open; };
+struct Bzip2Compressor { size_t m_file_size; struct file_wrapper m_file; BZFILE* m_bzfile; bool ghost_do_fsync; };
+int ghost_gzwrite_ret, ghost_gzclose_ret, ghost_gzclose_at, ghost_bzerr_write, ghost_bzerr_close, ghost_bzclose_at, ghost_fclose_at; size_t ghost_size_result; unsigned ghost_lo, ghost_hi;
+bool GzipCompressor_do_fsync(const struct GzipCompressor* self) { return self->ghost_do_fsync; }
+bool Bzip2Compressor_do_fsync(const struct Bzip2Compressor* self) { return self->ghost_do_fsync; }
+/* zlib gzwrite: returns the number of uncompressed bytes written, 0 on error (manual) */
+int gzwrite(gzFile f, const void* buf, unsigned len) __CPROVER_requires(f != 0 && len >= 1 && __CPROVER_r_ok(buf, len)) __CPROVER_assigns() __CPROVER_ensures(__CPROVER_return_value == ghost_gzwrite_ret && ghost_gzwrite_ret >= 0);
+/* gzclose_w: Z_OK or an error code; flushes and closes the (dup'ed) descriptor */
+int gzclose_w(gzFile f) __CPROVER_requires(f != 0) __CPROVER_assigns(ghost_clock, ghost_gzclose_at) __CPROVER_ensures(__CPROVER_return_value == ghost_gzclose_ret && ghost_clock == __CPROVER_old(ghost_clock) + 1 && ghost_gzclose_at == ghost_clock);
+void throw_gzip_error(gzFile f, const char* msg) __CPROVER_requires(1) __CPROVER_assigns(verif_exc) __CPROVER_ensures(verif_exc == EXC_gzip_error);
+size_t file_size(int fd) __CPROVER_requires(verif_exc == 0) __CPROVER_assigns(verif_exc) __CPROVER_ensures((verif_exc == 0 && __CPROVER_return_value == ghost_size_result) || verif_exc == EXC_system_error);
+/* libbz2 write side: the error code is returned through *bzerror (manual) */
+void BZ2_bzWrite(int* bzerror, BZFILE* b, void* buf, int len) __CPROVER_requires(__CPROVER_rw_ok(bzerror, sizeof(int)) && b != 0 && len >= 0) __CPROVER_assigns(*bzerror) __CPROVER_ensures(*bzerror == ghost_bzerr_write);
+void BZ2_bzWriteClose64(int* bzerror, BZFILE* b, int abandon, unsigned* ilo, unsigned* ihi, unsigned* olo, unsigned* ohi)
+  __CPROVER_requires(__CPROVER_rw_ok(bzerror, sizeof(int)) && b != 0 && abandon == 0 && __CPROVER_rw_ok(olo, sizeof(unsigned)) && __CPROVER_rw_ok(ohi, sizeof(unsigned)))
+  __CPROVER_assigns(*bzerror, *olo, *ohi, ghost_clock, ghost_bzclose_at) __CPROVER_ensures(*bzerror == ghost_bzerr_close && *olo == ghost_lo && *ohi == ghost_hi && ghost_clock == __CPROVER_old(ghost_clock) + 1 && ghost_bzclose_at == ghost_clock);
+void throw_bzip2_error(BZFILE* b, const char* msg, int err) __CPROVER_requires(1) __CPROVER_assigns(verif_exc) __CPROVER_ensures(verif_exc == EXC_bzip2_error);
+VFILE file_wrapper_file(const struct file_wrapper* w) { return w->open ? w->m_file_handle : 0; }
+int fileno(VFILE f) __CPROVER_requires(1) __CPROVER_assigns() __CPROVER_ensures(1);
+/* file_wrapper::close: fclose, failure -> system_error */
+void file_wrapper_close(struct file_wrapper* w) __CPROVER_requires(verif_exc == 0 && __CPROVER_rw_ok(w, sizeof(*w))) __CPROVER_assigns(verif_exc, w->open, ghost_clock, ghost_fclose_at)
+  __CPROVER_ensures(!w->open && (verif_exc == 0 || verif_exc == EXC_system_error) && ghost_clock == __CPROVER_old(ghost_clock) + 1 && ghost_fclose_at == ghost_clock);
+'''
+GZ_MT = {'reliable_fsync': True, 'reliable_close': True, 'throw_gzip_error': True, 'file_size': False, 'throw_bzip2_error': True, 'file_wrapper_close': True}
+U_gzw = Unit(GZ, 'write', cls='GzipCompressor', pre=SRULE + [(r'detail::throw_gzip_error', 'throw_gzip_error')])
+U_gzc = Unit(GZ, 'close', cls='GzipCompressor', stub_siblings={'do_fsync': 'GzipCompressor_do_fsync'}, pre=[(r'osmium::file_size\(', 'file_size(')])
+PIPELINES.append(Pipeline('U3_GzipCompressor_write', units=[U_gzw], prelude=ZSTUBS, contracts={'GzipCompressor_write': [
+    ('pre', 'requires', 'verif_exc == 0 && __CPROVER_is_fresh(self, sizeof(*self)) && self->m_gzfile != 0 && __CPROVER_is_fresh(data, sizeof(*data)) && data->n <= (1u << 30) && __CPROVER_is_fresh(data->p, data->n)'),
+    ('post:a write that the library reports as failed (0 bytes for non-empty data) throws gzip_error; nothing else throws', 'ensures',
+     '(verif_exc != 0) == (data->n >= 1 && ghost_gzwrite_ret == 0) && (verif_exc == 0 || verif_exc == EXC_gzip_error)'),
+    ('frame', 'assigns', 'verif_exc')]}, replace=['gzwrite', 'throw_gzip_error'], maythrow=GZ_MT, enforce='GzipCompressor_write',
+    harness='void harness(void) { struct GzipCompressor* c; const vstr* d; GzipCompressor_write(c, d); __CPROVER_assert(verif_exc != 0, "canary:normal"); __CPROVER_assert(verif_exc == 0, "canary:throw"); }',
+    canaries=['canary:normal', 'canary:throw'], replay=('c08_write', lambda cex, o: ['search'])))
+PIPELINES.append(Pipeline('U3_GzipCompressor_close', units=[U_gzc], prelude=ZSTUBS, contracts={'GzipCompressor_close': [
+    ('pre', 'requires', 'verif_exc == 0 && __CPROVER_is_fresh(self, sizeof(*self)) && ghost_clock == 0 && ghost_fsync_at == 0 && ghost_close_at == 0 && ghost_gzclose_at == 0'),
+    ('post:closed afterwards; a second close does nothing', 'ensures', 'self->m_gzfile == 0 && (__CPROVER_old(self->m_gzfile) != 0 || (ghost_clock == 0 && verif_exc == 0))'),
+    ('post:a failing gzclose_w (data not flushed) throws gzip_error', 'ensures', '!(__CPROVER_old(self->m_gzfile) != 0 && ghost_gzclose_ret != Z_OK) || verif_exc == EXC_gzip_error'),
+    ('post:then (unless stdout) the file size is taken, the file is synced if requested and closed, in this order; each failure throws', 'ensures',
+     '!(__CPROVER_old(self->m_gzfile) != 0 && verif_exc == 0 && self->m_fd != 1) || (ghost_gzclose_at == 1 && (self->ghost_do_fsync ? ghost_fsync_at == 2 && ghost_close_at == 3 : ghost_fsync_at == 0 && ghost_close_at == 2) && '
+     'ghost_close_fd == self->m_fd && self->m_file_size == ghost_size_result)'),
+    ('post:exception classes', 'ensures', 'verif_exc == 0 || verif_exc == EXC_gzip_error || verif_exc == EXC_system_error'),
+    ('frame', 'assigns', 'verif_exc, verif_errno, self->m_gzfile, self->m_file_size, ghost_clock, ghost_gzclose_at, ghost_fsync_at, ghost_fsync_fd, ghost_close_at, ghost_close_fd')]},
+    replace=['gzclose_w', 'file_size', 'reliable_fsync', 'reliable_close'], maythrow=GZ_MT, enforce='GzipCompressor_close',
+    harness='void harness(void) { struct GzipCompressor* c; GzipCompressor_close(c); __CPROVER_assert(verif_exc != 0, "canary:normal"); __CPROVER_assert(verif_exc == 0, "canary:throw"); }',
+    canaries=['canary:normal', 'canary:throw'], replay=('c08_write', lambda cex, o: ['search'])))
+U_bzw = Unit(BZ, 'write', cls='Bzip2Compressor', pre=SRULE[:2] + [(r'detail::throw_bzip2_error', 'throw_bzip2_error'), (r'const_cast<char\*>\(data\.p\)', '((char*)data.p)')])
+U_bzc = Unit(BZ, 'close', cls='Bzip2Compressor', stub_siblings={'do_fsync': 'Bzip2Compressor_do_fsync'},
+             pre=[(r'm_file\.file\(\)', 'file_wrapper_file(&m_file)'), (r'm_file\.close\(\)', 'file_wrapper_close(&m_file)')])
+PIPELINES.append(Pipeline('U3_Bzip2Compressor_write', units=[U_bzw], prelude=ZSTUBS, contracts={'Bzip2Compressor_write': [
+    ('pre', 'requires', 'verif_exc == 0 && __CPROVER_is_fresh(self, sizeof(*self)) && self->m_bzfile != 0 && __CPROVER_is_fresh(data, sizeof(*data)) && data->n <= (1u << 30) && __CPROVER_is_fresh(data->p, data->n)'),
+    ('post:every error code of BZ2_bzWrite throws bzip2_error', 'ensures', '(verif_exc != 0) == (ghost_bzerr_write != BZ_OK && ghost_bzerr_write != BZ_STREAM_END) && (verif_exc == 0 || verif_exc == EXC_bzip2_error)'),
+    ('frame', 'assigns', 'verif_exc')]}, replace=['BZ2_bzWrite', 'throw_bzip2_error'], maythrow=GZ_MT, enforce='Bzip2Compressor_write',
+    harness='void harness(void) { struct Bzip2Compressor* c; const vstr* d; Bzip2Compressor_write(c, d); __CPROVER_assert(verif_exc != 0, "canary:normal"); __CPROVER_assert(verif_exc == 0, "canary:throw"); }',
+    canaries=['canary:normal', 'canary:throw'], replay=('c08_write', lambda cex, o: ['search'])))
+PIPELINES.append(Pipeline('U3_Bzip2Compressor_close', units=[U_bzc], prelude=ZSTUBS, contracts={'Bzip2Compressor_close': [
+    ('pre', 'requires', 'verif_exc == 0 && __CPROVER_is_fresh(self, sizeof(*self)) && ghost_clock == 0 && ghost_fsync_at == 0 && ghost_fclose_at == 0 && ghost_bzclose_at == 0 && self->m_file.open && self->m_file.m_file_handle != 0'),
+    ('post:closed afterwards; a second close does nothing', 'ensures', 'self->m_bzfile == 0 && (__CPROVER_old(self->m_bzfile) != 0 || (ghost_clock == 0 && verif_exc == 0))'),
+    ('post:the stream is finished, synced if requested, the file closed - in this order; a failure of any of them throws', 'ensures',
+     '!(__CPROVER_old(self->m_bzfile) != 0) || (ghost_bzclose_at == 1 && (verif_exc != 0 || ((self->ghost_do_fsync ? ghost_fsync_at == 2 && ghost_fclose_at == 3 : ghost_fsync_at == 0 && ghost_fclose_at == 2) && ghost_bzerr_close == BZ_OK)))'),
+    ('post:the reported file size is the 64-bit count the library returned', 'ensures', '!(__CPROVER_old(self->m_bzfile) != 0 && verif_exc == 0) || self->m_file_size == (((uint64_t)ghost_hi << 32) | ghost_lo)'),
+    ('post:exception classes', 'ensures', 'verif_exc == 0 || verif_exc == EXC_bzip2_error || verif_exc == EXC_system_error'),
+    ('frame', 'assigns', 'verif_exc, verif_errno, self->m_bzfile, self->m_file_size, self->m_file.open, ghost_clock, ghost_bzclose_at, ghost_fsync_at, ghost_fsync_fd, ghost_fclose_at')]},
+    replace=['BZ2_bzWriteClose64', 'reliable_fsync', 'file_wrapper_close', 'fileno'], maythrow=GZ_MT, enforce='Bzip2Compressor_close',
+    harness='void harness(void) { struct Bzip2Compressor* c; Bzip2Compressor_close(c); __CPROVER_assert(verif_exc != 0, "canary:normal"); __CPROVER_assert(verif_exc == 0, "canary:throw"); }',
+    canaries=['canary:normal', 'canary:throw'], replay=('c08_write', lambda cex, o: ['search'])))
+
 TRUSTED = ['POSIX write/fsync/close return conventions (assumed contracts)', 'zlib/libbz2 return conventions']
 ASSUMPTIONS = ['write sizes up to 2^30 bytes per call of reliable_write (object-size bound)']
-NOT_DECIDED = ['propagation of the exception across the write thread / future', 'completeness of the file as a whole', 'Writer state machine', 'gzip/bzip2 compressors', 'termination when the kernel accepts 0 bytes forever']
+NOT_DECIDED = ['propagation of the exception across the write thread / future', 'completeness of the file as a whole', 'Writer state machine', 'termination when the kernel accepts 0 bytes forever']
 LEVEL_TEXT = ('Proof, relative to the POSIX return conventions: reliable_write returns normally only when the operating system has accepted every byte, contiguously and in order, for every size and '
               'every pattern of short writes, EINTR and errors (nested do-while loops closed by loop contracts), and throws system_error on any other failure; reliable_fsync/reliable_close make '
               'the call and report failure; NoCompressor::write accounts exactly the accepted bytes and propagates errors; NoCompressor::close syncs (if requested) before closing, propagates '
-              'each failure, and a second close or stdout makes no system call.')
-LEVEL_NOTE = ('Trusted: CBMC, extraction rules, POSIX conventions as stub contracts. Not decided: propagation across the write thread and future, Writer state machine, compressor classes for gzip/bzip2, '
+              'each failure, and a second close or stdout makes no system call; GzipCompressor and Bzip2Compressor write/close turn every failure the library or the OS reports into gzip_error / bzip2_error / system_error, '
+              'finish the compressed stream before syncing and closing, and report the size the library/OS returned.')
+LEVEL_NOTE = ('Trusted: CBMC, extraction rules, POSIX conventions as stub contracts. Not decided: propagation across the write thread and future, Writer state machine, what libz/libbz2 do inside their calls, '
               'termination if write() returns 0 forever.')
